@@ -939,13 +939,25 @@ static void set_refill(int units)
     filebuffer64::HBUF_SZ = (u32_t)units;
   }
 }
-bytes hash_filebuf(int alg, const bytes &file, size_t pos, int refill_units, const bytes *prefix64, const bytes *decoy)
+bytes hash_filebuf(int alg, const bytes &file, size_t pos, int refill_units, const bytes *prefix64, const bytes *decoy, int how)
 {
   set_refill(refill_units);
   MemFile in;
   in.d = file;
+  if (how == 1)
+  {
+    in.d.assign(file.begin() + (long)std::min(pos, file.size()), file.end());
+    in.noseek = true;
+  }
   FILE *fi = mf_open(&in, "rb");
-  fseek(fi, (long)pos, SEEK_SET);
+  if (how == 0)
+    fseek(fi, (long)pos, SEEK_SET);
+  else if (how == 2)
+  {
+    char sink[97];
+    while (fread(sink, 1, sizeof sink, fi) == sizeof sink)
+      ;
+  }
   Hashmaster *h = hasher(alg);
   bytes out(hash_len(alg));
   u8_t pre[64];
@@ -1074,12 +1086,22 @@ std::vector<bytes> hmac_seq(const std::vector<HmacCall> &calls, int refill_units
   set_refill(refill_units);
   std::vector<bytes> res;
   hmac h;
+  std::vector<MemFile *> mfs;
+  std::vector<FILE *> fps;
   for (auto &c : calls)
   {
-    MemFile in;
-    in.d = c.file;
-    FILE *fi = mf_open(&in, "rb");
-    fseek(fi, (long)c.pos, SEEK_SET);
+    FILE *fi;
+    if (c.same_stream && !fps.empty())
+      fi = fps.back();
+    else
+    {
+      MemFile *in = new MemFile;
+      in->d = c.file;
+      fi = mf_open(in, "rb");
+      fseek(fi, (long)c.pos, SEEK_SET);
+      mfs.push_back(in);
+      fps.push_back(fi);
+    }
     bytes k = c.key;
     k.resize(16);
     if (c.kind == 0)
@@ -1096,8 +1118,11 @@ std::vector<bytes> hmac_seq(const std::vector<HmacCall> &calls, int refill_units
       bool r = h.cmphmac((u8_t)c.hmode, k.data(), fi, t.data(), c.file.size());
       res.push_back(bytes(1, r ? 1 : 0));
     }
-    fclose(fi);
   }
+  for (FILE *f : fps)
+    fclose(f);
+  for (MemFile *m : mfs)
+    delete m;
   return res;
 }
 // a read-only stream of `len` synthetic bytes (byte i = synth_byte(i, pat)): nothing is materialised
